@@ -260,7 +260,7 @@ class Gen:
     def request(self, sl: int, obj: bool, alen: int) -> t.Any:
         r, p = self.rpc, self.pdu
         return self.fix(r.Request(header=self.header(p.PacketType.REQUEST, self.flags(obj), alen), sec_trailer=self.sec(alen) if alen else None,
-                                  alloc_hint=self.u(32), context_id=self.u(16), opnum=self.u(16), obj=self.uuid() if obj else None,
+                                  alloc_hint=self.u(32), context_id=self.u(16), opnum=self.u(16), obj=(uuid.UUID(int=0) if self.rng.random() < 0.15 else self.uuid()) if obj else None,   # the nil UUID is a value like any other
                                   stub_data=self.rng.randbytes(sl)))
 
     def response(self, sl: int, alen: int) -> t.Any:
